@@ -24,6 +24,7 @@ func (core *JApiCore) processInclude(keyword *scanner.Lexeme) *jerr.JApiError {
 		return je
 	}
 
+	verifFile(core, "read", path)
 	file, err := readFile(path)
 	if err != nil {
 		return japiErrorForLexeme(keyword, fmt.Sprintf("%s (%s) %s", jerr.IncorrectParameter, "Filename", err))
@@ -60,6 +61,7 @@ func (core *JApiCore) getIncludedFilePath(keyword *scanner.Lexeme) (string, *jer
 	// We included file path is always will be relative to currently scanned file
 	// directory.
 	absolutePath := filepath.Join(filepath.Dir(core.scanner.File().Name()), path)
+	verifFile(core, "stat", absolutePath)
 	info, err := os.Stat(absolutePath)
 	if err == nil {
 		if info.IsDir() {
